@@ -79,5 +79,12 @@ def register(claim, na):
           "released only through the urgent edge, the false edge of last.elapsed() < throttle.get(), or the expired remaining window with a non-empty set; "
           "all comparisons read the throttle freshly; the recv timeout is the freshly computed remaining window. Wall-clock accuracy is not decided.",
           "trusts tokio's timer and Instant; 'bounded delay' is structural (shrinking timeout), not measured", "DESIGN.md section 5 C02")
-    for p in ["C03", "C05", "C08", "C11", "C12", "C13", "C14", "C15", "C18"]:
+    claim("C13", "other", "protocol table for the change-signal pair (notifier/waiter primitives), MIR must-pass 'replace => reset' on the fs worker's shadow set, THIR iteration paths of the unwatch/watch loops, crate-wide lock-guard live-range scan, setter must-pass rules",
+          "Decides necessary conditions for convergence: no change signal can be lost while a worker is busy (stateful watch receiver), the shadow set is "
+          "cleared on every path after the watcher is taken or replaced, remove/insert happen exactly on the success edges and failures are reported "
+          "without stopping the loop, an empty set releases the watcher, no lock guard is live across an await or a user callback, and every public "
+          "setter signals the change. It does not explore change sequences and does not model notify's watchers.",
+          "trusts tokio::sync::watch semantics (receiver remembers the last seen version), notify's watch()/unwatch(), HashSet",
+          "DESIGN.md section 5 C13")
+    for p in ["C03", "C05", "C08", "C11", "C12", "C14", "C15", "C18"]:
         na(p, PENDING)
